@@ -647,3 +647,58 @@ func TestReplyRoundTrip(t *testing.T) {
 		lib.Sample(map[string]any{"test": "Reply", "result_kind": kind, "result": canon, "error": errText})
 	})
 }
+
+// Several messages wrapped before any of them is unwrapped (a batched forwarder.Publisher.Publish does this):
+// every envelope must still decode to its own message.
+func TestEnvelopeBatchRoundTrip(t *testing.T) {
+	rapid.Check(t, func(t *rapid.T) {
+		n := rapid.IntRange(2, 5).Draw(t, "batch")
+		var snaps []lib.Snap
+		var topics []string
+		var wrapped []*message.Message
+		for i := 0; i < n; i++ {
+			s := lib.GenSnap().Draw(t, "msg")
+			topic := genTopic().Draw(t, "topic")
+			w, err := forwarder.VerifWrapMessageInEnvelope(topic, s.Msg())
+			if err != nil {
+				t.Fatalf("wrap failed: %v", err)
+			}
+			snaps, topics, wrapped = append(snaps, s), append(topics, topic), append(wrapped, w)
+		}
+		for i, w := range wrapped {
+			topic, un, err := forwarder.VerifUnwrapMessageFromEnvelope(w)
+			if err != nil {
+				t.Fatalf("violation: envelope %d of %d (wrapped before the others were unwrapped) cannot be unwrapped: %v", i, n, err)
+			}
+			if topic != topics[i] || !lib.SnapOf(un).Equal(snaps[i]) {
+				t.Fatalf("violation: envelope %d of %d decodes to (%q, %+v), wrapped (%q, %+v)", i, n, topic, lib.SnapOf(un), topics[i], snaps[i])
+			}
+		}
+		// the same through forwarder.Publisher with one batched Publish call
+		capture := lib.NewScriptPub("")
+		fpub := forwarder.NewPublisher(capture, forwarder.PublisherConfig{})
+		var msgs []*message.Message
+		for _, s := range snaps {
+			msgs = append(msgs, s.Msg())
+		}
+		if err := fpub.Publish(topics[0], msgs...); err != nil {
+			t.Fatalf("forwarder.Publisher refused a batch: %v", err)
+		}
+		calls := capture.Calls()
+		if len(calls) != 1 || len(calls[0].Snaps) != n {
+			t.Fatalf("violation: forwarder.Publisher turned one batch of %d into %d calls", n, len(calls))
+		}
+		for i, env := range calls[0].Snaps {
+			topic, un, err := forwarder.VerifUnwrapMessageFromEnvelope(env.Msg())
+			if err != nil || topic != topics[0] || !lib.SnapOf(un).Equal(snaps[i]) {
+				t.Fatalf("violation: message %d of a batch published through forwarder.Publisher does not unwrap to itself: err=%v topic=%q", i, err, topic)
+			}
+		}
+		canon := ""
+		for _, s := range snaps {
+			canon += s.Canon() + ";"
+		}
+		lib.Case("envbatch|"+canon, true, "envelope-batch")
+		lib.Sample(map[string]any{"test": "EnvelopeBatch", "batch": n})
+	})
+}
